@@ -357,16 +357,24 @@ def r5_endpoint_whitelist(ctx):
     if good:
         from .c12 import every_iteration
         good = every_iteration(b, nx[0], an[0].bb, bad_targets=okb)
+    # the same test written with a quantifier: `endpoint.chars().find(|c| <class test>)` / all / any / position - the adaptor visits every character
+    # (it stops at the first hit, which is what the loop's early return did) and the class test sits in the predicate closure
+    fam = [b] + [ctx.prog.bodies[ch] for ch in ctx.prog.children.get(b.id, []) if ch in ctx.prog.bodies]
+    if not good:
+        quant = [c for c in b.calls if c.bb in b.live_blocks() and re.search(r"\bIterator>?::(find|all|any|position|find_map)$", c.orig_name or c.name) and "Chars" in (c.full or "")]
+        pred_tests = any(cb.calls_matching(r"char::methods::<impl char>::is_alphanumeric$|::is_ascii_alphanumeric$") for cb in fam[1:])
+        good = bool(quant) and pred_tests
     ctx.check(good and bool(errb), rule, [b.id, "all-chars-tested"], "every character passes the class test",
               "validate_endpoint no longer tests every character of the endpoint", b.loc(), sample={"validator": b.id})
     # allowed punctuation set (information + regression: a new path-significant character must not be admitted)
     allowed = set()
-    for i, blk in enumerate(b.blocks):
-        t = blk["t"]
-        if t["k"] == "Switch":
-            for v, tg in t["v"]:
-                if 0x20 < int(v) < 0x7f:
-                    allowed.add(chr(int(v)))
+    for fb in fam:
+        for i, blk in enumerate(fb.blocks):
+            t = blk["t"]
+            if t["k"] == "Switch":
+                for v, tg in t["v"]:
+                    if 0x20 < int(v) < 0x7f:
+                        allowed.add(chr(int(v)))
     danger = sorted(allowed & set("\\:~$%*?\"<>|&;`' \t\n\0"))
     ctx.check(not danger, rule, [b.id, "whitelist"], "whitelist admits no shell/drive/escape characters (admits %s)" % sorted(allowed),
               "validate_endpoint admits %s" % danger, b.loc(), sample={"admitted_punctuation": sorted(allowed)})
